@@ -15,8 +15,8 @@ LEVEL = "exploration"
 DESIGN_REF = "DESIGN.md §3 C18"
 RULE = (
     "Histories of constructions (arbitrary positional / keyword arguments) and clear_true_singleton(cls) / "
-    "clear_true_singleton() calls over a fresh family per case: P, Q(P) (subclass of a singleton class), R, and T.  "
-    "Bounded-exhaustive for all histories up to the stated length over {P,Q,R} x 2 argument selections + targeted "
+    "clear_true_singleton() calls over a fresh family per case: P, Q(P) (subclass of a singleton class), R (instances falsy via __len__) and T (keyword-only, falsy via __bool__); the harness keeps no reference to instances between calls.  "
+    "Bounded-exhaustive for all histories up to the stated length over {P,Q(P),R(falsy)} x 2 argument selections + targeted "
     "and global clears, Hypothesis up to 60 operations.  Oracle = dict model: construct => the model's instance if "
     "one is live (identity, __init__ not re-run, stored args are the first call's) else a new object of exactly that "
     "class, distinct from every other live instance, __init__ ran exactly once with these arguments; targeted clear "
@@ -24,7 +24,11 @@ RULE = (
     "instance) never raise.  Non-trivial = a clear between two constructions of one class and >= 2 classes live at "
     "some point; distinct = distinct case value."
 )
-ASSUMPTIONS = ["the library's global singleton registry is reset at the start and end of every case"]
+ASSUMPTIONS = [
+    "the library's global singleton registry is reset at the start and end of every case",
+    "the harness retains no reference to an instance between calls (identity is tracked by a serial number set in __init__), so an implementation that lets unreferenced singletons disappear is seen",
+    "singleton classes may have falsy instances (__len__ == 0 / __bool__ False)",
+]
 LEVEL_TEXT = "Model-based exploration with a bounded-exhaustive core (every history of <= 5 / <= 6 operations over 3 classes) plus Hypothesis histories."
 LEVEL_NOTE = "Trusts the dict model. Search, not proof."
 TECHNIQUE = "model-based stateful PBT (exhaustive small-scope + Hypothesis op-lists) against a dict model"
@@ -57,32 +61,46 @@ def enumerate_cases(tier, shard=0, nshards=1):
 
 
 def check_case(case):
+    """
+    The harness keeps NO strong reference to any instance between calls (a caller that uses a singleton on the
+    spot and asks for it again later must get the same object): instances carry a serial number given by
+    __init__, the model remembers serials.
+    """
     from edgegraph.structure import singleton as S
 
     S.clear_true_singleton()
-    inits = []
+    ninit = [0]
 
     class P(metaclass=S.TrueSingleton):
         def __init__(self, *a, **k):
+            ninit[0] += 1
+            self.serial = ninit[0]
             self.args = (a, k)
-            inits.append(self)
 
     class Q(P):
         pass
 
     class R(metaclass=S.TrueSingleton):
         def __init__(self, *a, **k):
+            ninit[0] += 1
+            self.serial = ninit[0]
             self.args = (a, k)
-            inits.append(self)
+
+        def __len__(self):      # instances are falsy (an "empty registry" style class)
+            return 0
 
     class T(metaclass=S.TrueSingleton):
         def __init__(self, *a, k=0):
+            ninit[0] += 1
+            self.serial = ninit[0]
             self.args = (a, {"k": k} if k != 0 else {})
-            inits.append(self)
+
+        def __bool__(self):
+            return False
 
     CL = [P, Q, R, T]
     names = "PQRT"
-    model = {}
+    model = {}          # class -> (serial, args)
     cleared_since = {}
     nt_a = nt_b = False
     classes = set()
@@ -94,37 +112,34 @@ def check_case(case):
                 a, k = ARGSETS[ai]
                 if c is T:
                     k = {kk: vv for kk, vv in k.items() if kk == "k"}
-                n0 = len(inits)
+                n0 = ninit[0]
                 try:
                     o = c(*a, **k)
                 except Exception as e:  # noqa
                     raise Violation("construct-raised", f"{where}: {e!r}")
                 if c in model:
-                    require(o is model[c][0], "second-instance-created", f"{where}: {names[ci % 4]} already has a live instance, a different object was returned")
-                    require(len(inits) == n0, "init-ran-again", where)
+                    require(getattr(o, "serial", None) == model[c][0] and type(o) is c, "second-instance-created",
+                            f"{where}: {names[ci % 4]} already has a live instance (serial {model[c][0]}), got serial {getattr(o, 'serial', None)} of class {type(o).__name__}")
+                    require(ninit[0] == n0, "init-ran-again", where)
                     require(o.args == model[c][1], "stored-args-changed", f"{where}: args now {o.args}, first call's were {model[c][1]}")
                 else:
                     require(type(o) is c, "wrong-class-returned", f"{where}: got {type(o).__name__}")
-                    require(all(o is not x[0] for x in model.values()), "instance-shared-between-classes", where)
-                    require(len(inits) == n0 + 1 and inits[-1] is o, "init-count", f"{where}: __init__ ran {len(inits) - n0} times")
+                    require(ninit[0] == n0 + 1 and o.serial == ninit[0], "init-count", f"{where}: __init__ ran {ninit[0] - n0} times / an old instance (serial {getattr(o, 'serial', None)}) was returned")
                     exp_args = (tuple(a), dict(k)) if c is not T else (tuple(a), {"k": k["k"]} if k.get("k", 0) != 0 else {})
                     require(o.args == exp_args, "init-args", f"{where}: {o.args} vs {exp_args}")
-                    model[c] = (o, o.args)
+                    model[c] = (o.serial, o.args)
                     if cleared_since.get(c):
                         nt_a = True
                         classes.add("construct-after-clear")
+                    if not bool(o):
+                        classes.add("falsy-instance")
+                del o
                 if len(model) >= 2:
                     nt_b = True
             else:
                 try:
-                    if ci == 4:
-                        S.clear_true_singleton()
-                        for c in list(model):
-                            cleared_since[c] = True
-                        model = {}
-                        classes.add("clear-all")
-                    elif ci == 5:
-                        S.clear_true_singleton(None)
+                    if ci in (4, 5):
+                        S.clear_true_singleton() if ci == 4 else S.clear_true_singleton(None)
                         for c in list(model):
                             cleared_since[c] = True
                         model = {}
@@ -138,15 +153,15 @@ def check_case(case):
                         S.clear_true_singleton(c)
                         model.pop(c, None)
                         classes.add("clear-one")
-                except Violation:
-                    raise
                 except Exception as e:  # noqa
                     raise Violation("clear-raised", f"{where}: {e!r}")
-            # every live class still constructs its instance (probe without changing the model)
-            for c, (inst, args) in model.items():
-                n0 = len(inits)
-                o = c() if c is not T else c()
-                require(o is inst and len(inits) == n0, "other-class-instance-lost", f"{where}: the live instance of {c.__name__} was replaced or re-initialised")
+            # every live class still hands out its instance (probe; nothing is retained)
+            for c, (serial, args) in model.items():
+                n0 = ninit[0]
+                o = c()
+                ok = getattr(o, "serial", None) == serial and ninit[0] == n0 and type(o) is c
+                del o
+                require(ok, "other-class-instance-lost", f"{where}: the live instance of {c.__name__} (serial {serial}) was replaced or re-initialised")
     finally:
         S.clear_true_singleton()
     return dict(nt=nt_a and nt_b, classes=sorted(classes), enum_scope=False)
